@@ -445,8 +445,11 @@ Definition payload_stream (input : val) : bytes :=
 Definition case_class (input : val) : string :=
   let o := v_ropts_t (vnth 1 input) in
   if (go_max_alloc <? o_maxh o) || (go_max_alloc <? o_maxs o) then "limit-above-runtime-max"
-  else if (let s := payload_stream input in has_short_section (S (length s)) s)
-  then "section-shorter-than-its-cid"
+  else if in_list (vN (vnth 0 input) mod 100) [7; 10; 11; 12; 16] &&
+          (let s := payload_stream input in has_short_section (S (length s)) s)
+  then (* only the walkers that seek backwards over such a section (Resume, LoadIndex and the stores that
+          generate an index); the clause of the known finding is alloc-bound, never panic / timeout / killed *)
+       "section-shorter-than-its-cid"
   else "entry-" ++ (match vN (vnth 0 input) mod 100 with
                     | 0 => "br" | 1 => "carv1" | 2 => "root" | 3 => "rootload" | 4 => "version"
                     | 5 => "v2hdr" | 6 => "idxread" | 7 => "resume" | 8 => "brskip" | 9 => "reader"
